@@ -601,3 +601,210 @@ impl Suite for Asm {
         Case { text, well_formed: true, label: format!("asm#{i}"), wrap_hint: None, meta }
     }
 }
+
+// ------------------------------------------------------------------ C13: delimited tokens (literals, comments, directives)
+
+/// delimited token kind x body length x multi-byte character x its byte position x termination.
+/// The generator knows where the token starts and ends.
+pub struct Delims {
+    pub kinds: Vec<String>,
+    pub lens: Vec<usize>,
+    pub mbs: Vec<String>,
+    pub positions: Vec<usize>,
+    pub terms: Vec<String>,
+}
+
+impl Suite for Delims {
+    fn len(&self) -> u64 {
+        (self.kinds.len() * self.lens.len() * self.mbs.len() * self.positions.len() * self.terms.len()) as u64
+    }
+    fn get(&self, i: u64) -> Case {
+        let mut k = i as usize;
+        let mut pick = |n: usize| { let r = k % n; k /= n; r };
+        let term = &self.terms[pick(self.terms.len())];
+        let pos = self.positions[pick(self.positions.len())];
+        let mb = &self.mbs[pick(self.mbs.len())];
+        let len = self.lens[pick(self.lens.len())];
+        let kind = &self.kinds[pick(self.kinds.len())];
+        let skip = || Case { text: String::new(), well_formed: false, label: format!("delims#{i}:skip"), wrap_hint: None, meta: Value::Null };
+        let (open, close, expect): (&str, &str, &str) = match kind.as_str() {
+            "str" => ("'", "'", if term == "closed" { "TextLiteral(SingleLine)" } else { "TextLiteral(Unterminated)" }),
+            "brace" => ("{", "}", "Comment("),
+            "paren" => ("(*", "*)", "Comment("),
+            "line" => ("//", "", "Comment("),
+            "dir" => ("{$region ", "}", "CompilerDirective"),
+            "pdir" => ("(*$region ", "*)", "CompilerDirective"),
+            "ifdir" => ("{$if ", "}", "ConditionalDirective(If)"),
+            "mlstr" => ("'''\n", "\n'''", if term == "closed" { "TextLiteral(MultiLine)" } else { "" }),
+            _ => return skip(),
+        };
+        // only literals end at the end of the line; a line comment has no closed form
+        let applicable = match (kind.as_str(), term.as_str()) {
+            ("line", "closed") => false,
+            ("line", _) => true,
+            (k, "eol") => k == "str",
+            _ => true,
+        };
+        if !applicable {
+            return skip();
+        }
+        // body: `len` bytes of filler with the multi-byte character starting at byte `pos` of the token
+        let mut body = String::new();
+        let filler = b"abcdefghij klmnopqrst";
+        let mut n = 0usize;
+        while body.len() < len {
+            if !mb.is_empty() && open.len() + body.len() == pos {
+                body.push_str(mb);
+            } else {
+                body.push(filler[n % filler.len()] as char);
+                n += 1;
+            }
+        }
+        if !mb.is_empty() && pos >= open.len() + len {
+            return skip();
+        }
+        let body = body.trim_end().to_string();
+        let lead = "x := ";
+        let mut text = String::from(lead);
+        let start = text.len();
+        text.push_str(open);
+        text.push_str(&body);
+        let end;
+        match term.as_str() {
+            "closed" => {
+                text.push_str(close);
+                end = text.len();
+                text.push_str(";\nFoo;\n");
+            }
+            "eol" => {
+                end = text.len();
+                text.push_str("\nFoo;\n");
+            }
+            _ => {
+                if kind == "line" {
+                    end = text.len();
+                } else {
+                    // unterminated at the end of the file: more lines follow inside the token
+                    text.push_str("\nFoo; zzz");
+                    end = text.len();
+                }
+            }
+        }
+        // an unterminated literal in front of the rest of the line: the rest belongs to it
+        let meta = if kind == "str" && term == "eof" {
+            Value::Null
+        } else {
+            serde_json::json!({"grid": {"start": start, "end": end, "kind": expect, "wordkind": "delim"}})
+        };
+        Case { text, well_formed: false, label: format!("delims#{i}:{kind}:len{len}:mb{}@{pos}:{term}", mb.len()), wrap_hint: None, meta }
+    }
+}
+
+// ------------------------------------------------------------------ C13: nested expression directives
+
+/// Random expression directives ({$if ..} / (*$elseif ..*)) whose expression holds strings, comments of both kinds, line
+/// comments and nested directives of both kinds, each hiding closers of the OTHER constructs. By construction the outer
+/// directive is one token spanning the whole constructed text.
+pub struct DirNest {
+    pub count: u64,
+    pub seed: u64,
+}
+
+fn dirnest_expr(rng: &mut StdRng, brace: bool, depth: u32, out: &mut String) {
+    let n = rng.gen_range(1..=4);
+    let hidden = ["}", "*)", "{", "(*", "//", "{$if", "(*$if", " ", "x", "*", ")", "$"];
+    for k in 0..n {
+        if k > 0 {
+            out.push(' ');
+        }
+        let mut junk = |rng: &mut StdRng, forbid: &[&str], out: &mut String| {
+            for _ in 0..rng.gen_range(0..4) {
+                let h = hidden[rng.gen_range(0..hidden.len())];
+                if forbid.iter().any(|f| h.contains(f) || (out.to_string() + h).contains(f)) {
+                    out.push('y');
+                } else {
+                    out.push_str(h);
+                }
+            }
+        };
+        match rng.gen_range(0..10) {
+            0 | 1 => out.push_str(["A", "B > 0", "defined(X)", "not C", "CompilerVersion >= 21.0", "and"][rng.gen_range(0..6)]),
+            2 => {
+                out.push('\'');
+                let mut s = String::from("q");
+                junk(rng, &["'"], &mut s);
+                out.push_str(&s);
+                out.push('\'');
+            }
+            3 => {
+                out.push('{');
+                let mut s = String::from("c");
+                junk(rng, &["}"], &mut s);
+                out.push_str(&s);
+                out.push('}');
+            }
+            4 => {
+                out.push_str("(*");
+                let mut s = String::from("c");
+                junk(rng, &["*)"], &mut s);
+                // `*` + `)` must not meet across the end of the body
+                if s.ends_with('*') {
+                    s.push('y');
+                }
+                out.push_str(&s);
+                out.push_str("*)");
+            }
+            5 => {
+                out.push_str("//");
+                let mut s = String::from(" c");
+                junk(rng, &["\n"], &mut s);
+                out.push_str(&s);
+                out.push('\n');
+            }
+            6 | 7 if depth < 3 => {
+                let inner_brace = rng.gen_bool(0.5);
+                out.push_str(if inner_brace { "{$" } else { "(*$" });
+                out.push_str(["if ", "IF ", "elseif ", "ElseIf "][rng.gen_range(0..4)]);
+                dirnest_expr(rng, inner_brace, depth + 1, out);
+                out.push_str(if inner_brace { "}" } else { " *)" });
+            }
+            8 => {
+                // a nested directive that is not an expression: it ends at the first closer of its own kind
+                let inner_brace = rng.gen_bool(0.5);
+                out.push_str(if inner_brace { "{$" } else { "(*$" });
+                out.push_str(["ifdef ", "I ", "define ", "ifopt ", "endif ", "else "][rng.gen_range(0..6)]);
+                let mut s = String::from("N");
+                junk(rng, &[if inner_brace { "}" } else { "*)" }], &mut s);
+                if !inner_brace && s.ends_with('*') {
+                    s.push('y');
+                }
+                out.push_str(&s);
+                out.push_str(if inner_brace { "}" } else { "*)" });
+            }
+            _ => out.push_str(["X", "1", "Foo.Bar", "<>", "(A or B)"][rng.gen_range(0..5)]),
+        }
+    }
+    let _ = brace;
+}
+
+impl Suite for DirNest {
+    fn len(&self) -> u64 {
+        self.count
+    }
+    fn get(&self, i: u64) -> Case {
+        let mut rng = StdRng::seed_from_u64(self.seed.wrapping_mul(0xD1B54A32D192ED03).wrapping_add(i));
+        let brace = rng.gen_bool(0.5);
+        let lead = ["", "Foo;\n", "x := 1; "][rng.gen_range(0..3)];
+        let mut text = String::from(lead);
+        let start = text.len();
+        text.push_str(if brace { "{$" } else { "(*$" });
+        let elseif = rng.gen_bool(0.3);
+        text.push_str(if elseif { "elseif " } else { "if " });
+        dirnest_expr(&mut rng, brace, 0, &mut text);
+        text.push_str(if brace { "}" } else { " *)" });
+        let end = text.len();
+        text.push_str(" Bar;\n");
+        let kind = if elseif { "ConditionalDirective(Elseif)" } else { "ConditionalDirective(If)" };
+        Case { text, well_formed: false, label: format!("dirnest#{i}"), wrap_hint: None, meta: serde_json::json!({"grid": {"start": start, "end": end, "kind": kind, "wordkind": "delim"}}) }
+    }
+}
